@@ -40,10 +40,10 @@ impl Rng {
 
 pub const NARROW: &[char] = &[
     'a', 'b', 'c', 'x', 'y', 'z', 'A', 'Z', '0', '9', '~', '!', ' ', '_', '`', 'q', 'j', '+', '.',
-    '\u{e9}', '\u{df}', '\u{a0}', '\u{ff}', '\u{b0}', '\u{44f}', '\u{3b1}', '\u{2592}', '\u{212b}',
+    '\u{e9}', '\u{df}', '\u{a0}', '\u{ff}', '\u{b0}', '\u{44f}', '\u{3b1}', '\u{2592}', '\u{212b}', '\u{263a}', '\u{2764}',
 ];
 pub const WIDE: &[char] = &['\u{30b3}', '\u{4e2d}', '\u{ff21}', '\u{1f600}', '\u{ac00}'];
-pub const COMBINING: &[char] = &['\u{301}', '\u{308}', '\u{20dd}', '\u{334}', '\u{5b0}'];
+pub const COMBINING: &[char] = &['\u{301}', '\u{308}', '\u{20dd}', '\u{334}', '\u{5b0}', '\u{fe0f}', '\u{fe0e}'];
 pub const ZEROW: &[char] = &['\u{200b}', '\u{200d}', '\u{ad}', '\u{feff}', '\u{17d8}', '\u{0}'];
 pub const C0DEL: &[char] =
     &['\u{7}', '\u{8}', '\u{9}', '\u{a}', '\u{d}', '\u{18}', '\u{1a}', '\u{7f}', '\u{1}', '\u{85}'];
